@@ -264,7 +264,9 @@ class RaggedArray(IndexableArray, np.lib.mixins.NDArrayOperatorsMixin):
             if self._shape.lengths[-1] == 0:
                 first_last_empty_row = np.searchsorted(self._shape.starts, self._shape.starts[-1], side='left')
                 result = ufunc.reduceat(self.ravel(), self._shape.starts[:first_last_empty_row])
-                result = np.pad(result, (0, len(self._shape.starts)-first_last_empty_row), constant_values=ufunc.identity)
+                # ufuncs without identity (maximum, minimum) have no value for empty rows: pad with 0
+                pad_value = 0 if ufunc.identity is None else ufunc.identity
+                result = np.pad(result, (0, len(self._shape.starts)-first_last_empty_row), constant_values=pad_value)
             else:
                 result = ufunc.reduceat(self.ravel(), self._shape.starts)
 
